@@ -9,7 +9,16 @@ import (
 
 func c07Tags(entry string, n []uint64, f []string) string {
 	data := c07Arg(f, 0)
+	prefix := []string{}
 	switch entry {
+	case "bldtags": // bldtags <type,...> <value> ...: TagBuilder output fed to ParseTags
+		b := NewTagBuilder()
+		for i, ty := range n {
+			b.AddTag(uint16(ty), c07Arg(f, i))
+		}
+		data = append(make([]byte, 0, len(b.Build())), b.Build()...)
+		prefix = []string{c07TB(data)}
+		fallthrough
 	case "tags":
 		t, err := ParseTags(data)
 		if err != nil {
@@ -18,9 +27,9 @@ func c07Tags(entry string, n []uint64, f []string) string {
 			}
 			return "err 1"
 		}
-		toks := []string{c07TB([]byte(t.ServiceName)), c07TB([]byte(t.ACName)), c07TBN(t.HostUniq), c07TBN(t.ACCookie),
+		toks := append(prefix, c07TB([]byte(t.ServiceName)), c07TB([]byte(t.ACName)), c07TBN(t.HostUniq), c07TBN(t.ACCookie),
 			c07TBN(t.RelaySessionID), c07TBN(t.VendorSpecific), c07TB([]byte(t.AgentCircuitID)),
-			c07TB([]byte(t.AgentRemoteID)), c07U(uint64(t.PPPMaxPayload)), c07U(uint64(len(t.Errors)))}
+			c07TB([]byte(t.AgentRemoteID)), c07U(uint64(t.PPPMaxPayload)), c07U(uint64(len(t.Errors))))
 		for _, e := range t.Errors {
 			kind := "9"
 			for k, p := range []string{"service-name-error: ", "ac-system-error: ", "generic-error: "} {
